@@ -137,3 +137,53 @@ PROPS["C18"] = dict(
     trusted_base=["Model/Winding.v follows hit_test.rs / area.rs / winding.rs on polygonal input"],
     assumptions=["query points not on the outline", "rational arithmetic (on the lattice the f32 comparisons are exact)"],
 )
+
+PROPS["C02"] = dict(
+    level="proof",
+    level_text="Component level (the monotone triangulation stage): theorems (Props/C02.v) for ALL begin/vertex*/end sequences "
+               "(any positions, sides, ids): the basic and the advanced monotone tessellator emit exactly n-2 triangles for n "
+               "vertices, every triangle is made of ids of the piece, pairwise distinct when the ids are (basic), flush_side on "
+               "a chain of len events emits len-2 triangles with in-range pairwise distinct indices and never exhausts its "
+               "loop. The Gallina port (incl. the f32-rounded `dy * 0.1` test) is compared triangle-by-triangle (ids and "
+               "order) with the real code through the lyon_verif hook on every y-monotone lattice polygon up to the stated "
+               "size. Interior-disjointness / area tiling is validated per run (exact area sums), not proved; the "
+               "system-level tiling of whole fills is covered with C01's checker when registered.",
+    level_note="Trusted: Coq kernel; Base/F32.v rounding (validated against Rust each run); geometric tiling (triangles inside "
+               "the piece, no overlap) is checked by exact integer area sums on every enumerated polygon, not by a theorem.",
+    technique="Coq proof (invariants over the tessellator state machines) + exhaustive enumeration correspondence via hook",
+    coq_targets=["theories/Props/C02.vo", "theories/Run/C02.vo"],
+    props_file="theories/Props/C02.v",
+    props_module="Props.C02",
+    harness=[dict(sub="c02", profile="debug"), dict(sub="c02", profile="release")],
+    rule="every y-monotone lattice polygon with up to 4 (quick) / 6 (thorough) middle vertices (all left/right interleavings x "
+         "x offsets 1..3) through both tessellators; random taller/narrower scalings (sides_are_close path), equal-y rows, "
+         "longer chains; arbitrary non-monotone side sequences; non-trivial = at least 4 vertices",
+    exhaustive_note="all side/x-offset sequences up to the stated number of middle vertices",
+    trusted_base=["Model/Monotone.v is a line-by-line port of monotone.rs; the literal 0.1 is regenerated from the source (Gen/Constants.v)"],
+    assumptions=["vertex positions are exact rationals; only `dy * 0.1` is rounded (the other comparisons are exact on lattice input)"],
+)
+
+PROPS["C15"] = dict(
+    level="proof",
+    level_text="Theorems (Props/C15.v) for ALL finite sequences over the SVG command alphabet, ALL operands, ALL arc-oracle "
+               "values and ANY coordinate arithmetic: the calls the wrapped builder sees (including the end issued by build, "
+               "at every prefix) are properly nested begin/edge*/end, and they are exactly the calls prescribed by an "
+               "independently written reading of the SVG path rules (relative resolution, implicit move-to, close returning "
+               "to the sub-path start, smooth reflection only after a curve of the same kind) - the latter under the single "
+               "arithmetic fact x + (x - x) = x. The adapter model is bit-exact (correctly rounded f32 add/sub) and compared "
+               "with WithSvg on all command sequences up to length 3 (quick) / 4 (thorough) over a 20-command alphabet plus "
+               "random long ones; arc geometry is an oracle recorded from the real run.",
+    level_note="Trusted: Coq kernel; Base/F32.v; arc geometry (SvgArc::to_arc, quadratic approximation) is an oracle here and is "
+               "property C13's subject; coordinates finite (the reflection fact fails for NaN/inf).",
+    technique="Coq proof (simulation between adapter state machine and SVG semantics) + bounded-exhaustive correspondence",
+    coq_targets=["theories/Props/C15.vo", "theories/Run/C15.vo"],
+    props_file="theories/Props/C15.v",
+    props_module="Props.C15",
+    harness=[dict(sub="c15", profile="debug"), dict(sub="c15", profile="release")],
+    rule="all sequences of length <= 3 (quick) / <= 4 (thorough) over 20 commands with representative operands (absolute, "
+         "relative, smooth, H/V, close, arc_to, relative_arc_to, arc), each followed by build; random sequences up to 40 "
+         "commands with random integer operands; minimised past failures (corpus); non-trivial = at least 2 commands",
+    exhaustive_note="all command sequences up to the stated length over the 20-command alphabet",
+    trusted_base=["Model/SvgBuilder.v follows WithSvg in builder.rs; Verb numbering regenerated from path.rs (Gen/Constants.v)"],
+    assumptions=["finite coordinates", "arc geometry supplied by the real code (oracle)"],
+)
